@@ -479,8 +479,52 @@ func c04(r *core.Run) {
 								refusal = "no reply subject: nothing to answer"
 							}
 						}
-						if strings.HasPrefix(d, "call:strings.IndexByte<0") || strings.HasPrefix(d, "call:strings.LastIndexByte<0") {
+						if sepMissingCond(d) {
 							refusal = "subject without the separator the subscription patterns guarantee (cannot be delivered by a conformant server)"
+						}
+						// the parse may sit in a helper that answers ok=false exactly where the separator is
+						// missing (parts, ok := splitSubject(subj); if !ok { log; return })
+						if cnd, succ := e.Norm(); refusal == "" {
+							var hc *ssa.Call
+							idx := 0
+							switch x := cnd.(type) {
+							case *ssa.Call:
+								hc = x
+							case *ssa.Extract:
+								hc, _ = x.Tuple.(*ssa.Call)
+								idx = x.Index
+							}
+							if hc != nil {
+								if cal := hc.Common().StaticCallee(); cal != nil && len(cal.Blocks) > 0 && cal.Pkg == h.Pkg {
+									want := succ == 0
+									all, n := true, 0
+									for _, r2 := range core.Returns(cal) {
+										if idx >= len(r2.Results) {
+											all = false
+											continue
+										}
+										for _, src := range phiSources(r2.Results[idx]) {
+											if isConstBool(src.V, !want) {
+												continue
+											}
+											n++
+											onSep := false
+											for _, e2 := range srcEdges(r2, src) {
+												d2 := describeCond(e2)
+												if sepMissingCond(d2) {
+													onSep = true
+												}
+											}
+											if !onSep || !isConstBool(src.V, want) {
+												all = false
+											}
+										}
+									}
+									if all && n > 0 {
+										refusal = "subject without the separator the subscription guarantees (decided by " + cal.Name() + ")"
+									}
+								}
+							}
 						}
 						// the subject is split by a private helper that reports failure: every failing return
 						// of the helper must be one of those separator-missing edges
@@ -513,7 +557,7 @@ func c04(r *core.Run) {
 										okRet := false
 										for _, he := range dominatingEdges(hr) {
 											hd := describeCond(he)
-											if strings.HasPrefix(hd, "call:strings.IndexByte<0") || strings.HasPrefix(hd, "call:strings.LastIndexByte<0") {
+											if sepMissingCond(hd) {
 												okRet = true
 											}
 										}
@@ -1352,4 +1396,17 @@ func funnelWithHelpers(p *core.Prog, funnel *ssa.Function) []*ssa.Function {
 		}
 	}
 	return unit
+}
+
+// sepMissingCond: the rendered condition says that strings.IndexByte /
+// LastIndexByte found no separator (< 0, <= -1 or == -1).
+func sepMissingCond(d string) bool {
+	for _, fn := range []string{"call:strings.IndexByte", "call:strings.LastIndexByte"} {
+		for _, op := range []string{"<0", "<=-1", "==-1"} {
+			if strings.HasPrefix(d, fn+op) {
+				return true
+			}
+		}
+	}
+	return false
 }
